@@ -22,10 +22,10 @@ from vf import core
 from vf.engines import tx
 
 TABLE = 'A'
-KIND = dict(x='int', y='int', s='str', f='float', n='int', v='int')
+KIND = dict(x='int', y='int', s='str', f='float', n='int', v='int', z='int')
 CONTROL_OCE = ('f', 'n', 'v')     # excluded from optimistic checks: float, optimistic=False, volatile
 CONTROL_URE = ('v',)              # re-reading a changed float / optimistic=False attribute may raise (C21), volatile not
-FIXTURE = {1: dict(id=1, x=0, y=0, s='s', f=0.5, n=0, v=0), 2: dict(id=2, x=0, y=0, s='s', f=0.5, n=0, v=0)}
+FIXTURE = {1: dict(id=1, x=0, y=0, s='s', f=0.5, n=0, v=0, z=0), 2: dict(id=2, x=0, y=0, s='s', f=0.5, n=0, v=0, z=0)}
 
 def define(db, orm):
     class A(db.Entity):
@@ -36,6 +36,7 @@ def define(db, orm):
         f = orm.Required(float)
         n = orm.Required(int, optimistic=False)
         v = orm.Required(int, volatile=True)
+        z = orm.Required(int)        # a checked attribute declared AFTER the excluded ones
 
 def populate(E):
     for o in sorted(FIXTURE): E['A'](**FIXTURE[o])
@@ -56,10 +57,24 @@ def K(t, attr):
     return 100.0 * (t + 1)
 
 def new_row(t, o):
-    return dict(id=o, x=K(t, 'x'), y=K(t, 'y'), s=K(t, 's'), f=K(t, 'f'), n=K(t, 'n'), v=K(t, 'v'))
+    return dict(id=o, x=K(t, 'x'), y=K(t, 'y'), s=K(t, 's'), f=K(t, 'f'), n=K(t, 'n'), v=K(t, 'v'), z=K(t, 'z'))
 
 def P(name, *ops, **flags):
     return dict(name=name, ops=list(ops), flags=flags)
+
+def sclass(prog):
+    """class of a session program for signatures: how it protects itself"""
+    f = prog['flags']
+    if f.get('serializable'): return 'serializable'
+    if f.get('optimistic') is False: return 'non-optimistic'
+    if f.get('immediate'): return 'immediate'
+    locks = [op for op in prog['ops'] if op[0] in ('getfu', 'selfu')]
+    if locks:
+        first = [i for i, op in enumerate(prog['ops']) if op[0] in ('getfu', 'selfu')][0]
+        late = any(op[0] in ('r', 'get', 'selq', 'getby') for op in prog['ops'][:first])
+        return '%s%s%s' % ('read-then-' if late else '', {'getfu': 'get_for_update', 'selfu': 'query.for_update'}[locks[0][0]],
+                           {'': '', 'nowait': '(nowait)', 'skip': '(skip_locked)'}[locks[0][2]])
+    return 'optimistic'
 
 class Stop(Exception):
     pass
@@ -184,15 +199,15 @@ def mon_commit_attribution(v):
         t, lab = v.x.trace[j]
         name = v.progs[t]['name']
         if lab[0] != 'commit':
-            out.append(('rows-changed-outside-commit|%s|%s' % (name, lab[0]), 'step %d %r changed committed rows' % (j, lab)))
+            out.append(('rows-changed-outside-commit|%s|%s' % (sclass(v.progs[t]), lab[0]), 'step %d %r changed committed rows' % (j, lab)))
         elif not v.ok[t]:
-            out.append(('failed-session-left-trace|%s|%s' % (name, v.res[t].get('cls')),
+            out.append(('failed-session-left-trace|%s|%s' % (sclass(v.progs[t]), v.res[t].get('cls')),
                         'session T%d failed with %s but its commit at step %d changed rows: %r'
                         % (t, v.res[t].get('cls'), j, sorted(changed_columns(v.rows[j], v.rows[j + 1])))))
     for t in range(v.n):
         wrote = [d for _, d in v.notes[t] if d[0] in ('w', 'new')]      # a DELETE of an already deleted row is a legitimate no-op
         if v.ok[t] and wrote and not v.commit_steps[t]:
-            out.append(('successful-session-committed-nothing|%s' % v.progs[t]['name'],
+            out.append(('successful-session-committed-nothing|%s' % sclass(v.progs[t]),
                         'session T%d ended normally after %r but no commit of it changed rows' % (t, wrote[:3])))
     return out
 
@@ -208,7 +223,7 @@ def compose(v):
             if d[0] == 'w':
                 _, o, attr, new, src = d
                 if o not in view:
-                    problems.append(('update-of-deleted-row-committed|%s' % v.progs[t]['name'],
+                    problems.append(('update-of-deleted-row-committed|%s' % sclass(v.progs[t]),
                                      'T%d committed an update of A[%s], which an earlier committed session deleted' % (t, o)))
                     continue
                 view[o][attr] = K(t, attr) if src is None else F(t, attr, view[o][src])
@@ -232,9 +247,9 @@ def mon_composition(v, counters):
                 if (o, attr) in exempt:
                     counters['control_lost_update'] = counters.get('control_lost_update', 0) + 1
                     continue
-                writers = sorted(set(v.progs[t]['name'] for t in range(v.n) if v.ok[t]
-                                     for _, d in v.notes[t] if d[0] == 'w' and d[1] == o and d[2] == attr))
-                out.append(('lost-update|%s:%s|%s' % (attr, KIND[attr], '+'.join(writers)),
+                ws = [(t, d) for t in range(v.n) if v.ok[t] for _, d in v.notes[t] if d[0] == 'w' and d[1] == o and d[2] == attr]
+                srcs = sorted(set('blind' if d[4] is None else ('same' if d[4] == attr else 'other:' + KIND[d[4]]) for _, d in ws))
+                out.append(('lost-update|%s|from=%s|sessions=%s' % (KIND[attr], ','.join(srcs), ','.join(sorted(set(sclass(v.progs[t]) for t, _ in ws)))),
                             'A[%s].%s: composition in commit order gives %r, database has %r'
                             % (o, attr, expected[o][attr], v.final[o][attr])))
     return out
@@ -259,7 +274,8 @@ def mon_stale_read(v, counters):
                 if attr in CONTROL_OCE:
                     counters['control_changed_silently'] = counters.get('control_changed_silently', 0) + 1
                 else:
-                    out.append(('stale-read-committed|%s|%s:%s' % (v.progs[t]['name'], attr, KIND[attr]),
+                    how = [op[0] for op in v.progs[t]['ops'] if op[0] in ('selq', 'getby') and op[-1] == attr] or ['attribute']
+                    out.append(('stale-read-committed|%s|%s read via %s' % (sclass(v.progs[t]), KIND[attr], how[0]),
                                 'T%d read A[%s].%s = %r, updated A[%s] and committed although the committed value had become %r'
                                 % (t, o, attr, val, o, cur)))
             else: counters['reads_still_valid_at_commit'] = counters.get('reads_still_valid_at_commit', 0) + 1
@@ -283,7 +299,9 @@ def mon_spurious(v, counters):
             for (o, col) in changed_columns(v.rows[j], v.rows[j + 1]):
                 if o in touched and col not in control: justified = True
         if not justified:
-            out.append(('control-raised|%s|%s' % (v.progs[t]['name'], r['cls']),
+            reads = sorted(set(d[2] for _, d in v.notes[t] if d[0] == 'r'))
+            kinds = sorted(set(('volatile' if a == 'v' else 'optimistic=False' if a == 'n' else KIND[a]) for a in reads))
+            out.append(('control-raised|%s|%s|read %s' % (r['cls'], sclass(v.progs[t]), ','.join(kinds) or 'nothing'),
                         'T%d failed with %s (%s) although no other session changed a checked column of a row it touched'
                         % (t, r['cls'], r['msg'])))
     return out
@@ -293,7 +311,7 @@ def mon_unexpected(v):
     for t in range(v.n):
         r = v.res[t]
         if r['status'] == 'exc' and not r['pony']:
-            out.append(('unexpected-exception|%s|%s' % (v.progs[t]['name'], r['cls']), 'T%d died with %s: %s' % (t, r['cls'], r['msg'])))
+            out.append(('unexpected-exception|%s|%s' % (r['cls'], sclass(v.progs[t])), 'T%d (%s) died with %s: %s' % (t, v.progs[t]['name'], r['cls'], r['msg'])))
         elif r['status'] == 'engine':
             out.append(('engine-result|%s' % r['cls'], repr(r)))
     return out
@@ -316,7 +334,7 @@ def mon_lock_window(v, counters):
             for j in v.change_steps:
                 if start < j <= end and v.x.trace[j][0] != t and any(oo == o for oo, _ in changed_columns(v.rows[j], v.rows[j + 1])):
                     u = v.x.trace[j][0]
-                    out.append(('locked-row-overwritten|%s|by=%s' % (v.progs[t]['name'], v.progs[u]['name']),
+                    out.append(('locked-row-overwritten|%s|by=%s' % (sclass(v.progs[t]), sclass(v.progs[u])),
                                 'T%d (%s) had A[%s] locked/read since step %d and ended at step %d, but T%d (%s) committed a change to it at step %d'
                                 % (t, v.progs[t]['name'], o, start, end, u, v.progs[u]['name'], j)))
                     break
@@ -508,3 +526,15 @@ def coverage(ctx, agg):
                '(cross-checked against all-driver-calls-are-points on %d tuples)' % len(agg['xsets']))
     ctx.assume('timeout=0: SQLite busy conflicts are immediate errors; cooperative scheduling hides races inside one transition')
     return dict(states=agg['states'], transitions=agg['transitions'], traces_validated_against_impl=agg['executions'])
+
+def guards(ctx, specs):
+    """vacuity guards [(name, value, minimum)]. A guard that is not met while the run reports NEW violations is
+    recorded but does not turn the verdict into 'harness broken': the run is not a silent pass, and a defect
+    that makes OptimisticCheckError disappear must be reported as the violation it is (exit 1)."""
+    known = core.load_known()
+    new = [sig for sig in ctx.found if not core.match_known(known, ctx.prop, sig)]
+    unmet = []
+    for name, value, minimum in specs:
+        if value >= minimum or not new: ctx.guard(name, value, minimum)
+        else: unmet.append(dict(name=name, value=value, minimum=minimum))
+    if unmet: ctx.cov['guards_not_met_while_violations_are_reported'] = unmet
